@@ -1,4 +1,5 @@
 import AutoVerif.Model.Types
+import AutoVerif.Model.C09Sample
 /-
 C09 safety clauses as decidable predicates over a recorded network trace
 (harness/net_test.go): what every member's pipeline returned, every round's
@@ -213,6 +214,89 @@ def explain (t : Trace) (restarts : List (Nat × Nat)) : String :=
   -- the two corners where the clause is false of the code (known findings) come last, so that they never mask another failure
   else if s2Class t == .anyOf then "two-reports-one-work/any-of: an honest member is willing to transmit two reports listing one unit of work at different check blocks at once; the older one lists further upkeeps and stays offered on their account (any-of rule of ShouldTransmitAcceptedReport)"
   else if s2Class t == .sameBlock then "two-reports-one-work/same-block: an honest member is willing to transmit two different reports that list one unit of work at the same check block at once (one coordinator record per unit of work; the reports differ in their other upkeeps or in the round that produced them)"
+  else "ok"
+
+/-! ### sampling coverage runs (`kind = cover`, harness/net_test.go `runCoverage`)
+
+Fairness of the conditional sampling flow, the first link of the liveness clause: in a run whose sampling ratio CUTS
+(`size < k`), over enough sampling ticks every upkeep of the registry is handed to the check pipeline by the sampling
+flow of every live member, and an upkeep that is eligible on every member is eventually reported.  Only facts that do
+not depend on the shuffle's luck are compared: coverage sets, tick counts, the smallest / largest number of upkeeps a
+tick handed on, and WHETHER the eligible upkeeps were reported before the bound. -/
+
+structure CoverMember where
+  id      : Nat
+  ticks   : Nat        -- sampling ticks (calls of the member's upkeep provider)
+  covered : List Nat   -- registry positions the sampling flow handed to this member's pipeline at least once
+  minTick : Nat        -- fewest upkeeps one tick handed on
+  maxTick : Nat        -- most upkeeps one tick handed on
+  upMs    : Nat        -- virtual time the member's instance was running
+deriving Repr
+
+structure CoverRun where
+  n : Nat
+  f : Nat
+  k : Nat               -- conditional upkeeps in the registry (same order on every member)
+  num : Nat             -- the sampling ratio the factory computes from the off-chain config, exactly: num / den
+  den : Nat
+  size : Nat            -- ratio.OfInt(k), as computed by the harness
+  eligible : List Nat   -- registry positions that are eligible on every member at every block until performed
+  slack : Nat           -- sampling ticks granted for proposal → coordination → final check → agreement → report
+  members : List CoverMember   -- the live members (at least 2f+1, all honest)
+  reported : List Nat   -- registry positions that appeared in a report
+  roundTicks : Nat      -- fewest sampling ticks any live member had seen when the harness stopped running rounds
+deriving Repr
+
+/-- `SamplingConditionInterval`, ms -/
+def samplingIntervalMs : Nat := 3000
+
+/-- F1 (per member): once the run is long enough (`Sample.coverageDue`), the sampling flow has handed every upkeep that
+never became eligible to the member's pipeline at least once.  (An eligible upkeep may legitimately be withheld from
+the pipeline: it is filtered while in flight.  It is covered by F3.) -/
+def memberCovered (c : CoverRun) (m : CoverMember) : Bool :=
+  !Sample.coverageDue c.k c.size c.members.length m.ticks ||
+    ((Sample.missed c.k m.covered).filter (fun i => !c.eligible.contains i)).isEmpty
+
+/-- F2 (per member): no tick handed fewer upkeeps to the pipeline than the ratio prescribes (eligible upkeeps may be
+filtered or answered from the runner's cache) -/
+def sampleNotTooSmall (c : CoverRun) (m : CoverMember) : Bool :=
+  m.ticks == 0 || decide (c.size ≤ m.minTick + c.eligible.length)
+
+/-- the sampling flow keeps its cadence -/
+def ticksRegular (m : CoverMember) : Bool := decide (m.upMs ≤ (m.ticks + 2) * samplingIntervalMs)
+
+/-- the rounds phase was long enough for the eventual-report clause to be due: the probability that some eligible
+upkeep was in no live member's sample during `roundTicks - slack` ticks is below `10⁻¹²` -/
+def reportDue (c : CoverRun) : Bool :=
+  let t := (c.roundTicks - c.slack) * c.members.length
+  decide (c.slack ≤ c.roundTicks) && decide ((c.k - c.size) ^ t * (c.eligible.length * 10 ^ 12) < c.k ^ t)
+
+/-- F3 (network): every upkeep that is eligible on every live member was reported -/
+def eligibleReported (c : CoverRun) : Bool :=
+  !reportDue c || c.eligible.all (fun i => c.reported.contains i)
+
+def coverSpec (c : CoverRun) : Bool :=
+  c.members.all (fun m => memberCovered c m && sampleNotTooSmall c m && ticksRegular m) && eligibleReported c
+
+def showNats (l : List Nat) : String := ", ".intercalate (l.map toString)
+
+def coverExplain (c : CoverRun) : String :=
+  match c.members.find? (fun m => !ticksRegular m) with
+  | some m => s!"sampling-stalled: member {m.id} ran {m.upMs} ms with {c.k} conditional upkeeps registered and its sampling flow ticked only {m.ticks} time(s) (cadence {samplingIntervalMs} ms)"
+  | none =>
+  match c.members.find? (fun m => !memberCovered c m) with
+  | some m =>
+    let miss := (Sample.missed c.k m.covered).filter (fun i => !c.eligible.contains i)
+    s!"sampling-unfair: member {m.id} sampled {c.size} of {c.k} conditional upkeeps per tick for {m.ticks} ticks and NEVER handed registry position(s) [{showNats miss}] to its check pipeline (with a shuffle of the whole registry each is missed with probability (({c.k}-{c.size})/{c.k})^{m.ticks}, below 1e-12 for the whole run): these upkeeps can never be proposed by this member"
+  | none =>
+  match c.members.find? (fun m => !sampleNotTooSmall c m) with
+  | some m => s!"sample-too-small: member {m.id} handed only {m.minTick} upkeep(s) to its pipeline in one tick; ratio.OfInt({c.k}) = {c.size}, {c.eligible.length} eligible"
+  | none =>
+  if !eligibleReported c then
+    let miss := c.eligible.filter (fun i => !c.reported.contains i)
+    let nowhere := miss.filter (fun i => c.members.all (fun m => !m.covered.contains i))
+    s!"eligible-never-reported: registry position(s) [{showNats miss}] of {c.k} stayed eligible on all {c.members.length} live members (n={c.n}, f={c.f}) for at least {c.roundTicks} sampling ticks and were never reported" ++
+      (if nowhere.isEmpty then "" else s!"; position(s) [{showNats nowhere}] were never sampled by any member")
   else "ok"
 
 end AutoVerif.C09
